@@ -147,5 +147,8 @@ def check(ctx):
     # that is what the validator has to establish for every argument vector the caller may pass (C13.A2o)
     from . import c13
     c13.check_parse_options(ctx, prog, None)
+    F13 = prog.fn("parse_redirect")
+    if {"redirect", "stream", "parent", "discard", "file", "path"} <= {x["name"] for x in F13.params}:
+        c13.check_redirect(ctx, prog)      # a type without its handle / file / path is rejected (the constructors dereference them)
     R.exited_is_quiet(ctx, prog, "C14.L2q")
     R.c14_asserts(ctx)
